@@ -396,6 +396,20 @@ theorem sort_numbers_sorted [LawfulNum N] (ns : List N) :
     ns
   simpa using h
 
+/-- `$sort` neither loses nor invents members: same length, same members with the same multiplicities -/
+theorem sort_numbers_length (ns : List N) : (ns.mergeSort (fun a b => !lt b a)).length = ns.length :=
+  (sort_numbers_perm ns).length_eq
+
+theorem sort_numbers_mem (ns : List N) (x : N) : x ∈ ns.mergeSort (fun a b => !lt b a) ↔ x ∈ ns :=
+  (sort_numbers_perm ns).mem_iff
+
+/-- sorting an array that is already in order returns it as it is: `$sort($sort(a)) = $sort(a)` -/
+theorem sort_numbers_idem [LawfulNum N] (ns : List N) :
+    (ns.mergeSort (fun a b => !lt b a)).mergeSort (fun a b => !lt b a) = ns.mergeSort (fun a b => !lt b a) := by
+  apply List.mergeSort_of_pairwise
+  have h := sort_numbers_sorted ns
+  exact h.imp (by intro a b hab; simp [hab])
+
 /-- the repo's own `merge`: take from the right list exactly when swap(lhs[0], rhs[0]) -/
 def goMerge (sw : Val N → Val N → Bool) : List (Val N) → List (Val N) → List (Val N)
   | [], r => r
